@@ -274,6 +274,16 @@ AddToGroup(o, d, n) ==
                /\ Ok("AddToGroup", [o |-> o, d |-> d, n |-> n, p |-> p], {o})
     /\ UNCHANGED <<mem, kids, reg, fnode, flink, held, mode, Aux>>
 
+\* a property group requested with an identifier that is in use - by a property group of the same or of another
+\* object, or by an entity of any kind - is refused without side effects (C06; property_group.py __init__)
+PGWithUid(o, d, n, u) ==
+    /\ Do("PGWithUid") /\ Writable /\ o \in Att \cap OS /\ d \in kids[o] /\ d \notin dirty
+    /\ \A p \in PGsOf(o) : pg[p].name # n
+    /\ \/ (u \in PS /\ pg[u].owner \in Att)
+       \/ (u \in ES /\ u \in Att)
+    /\ Refused("PGWithUid", [o |-> o, d |-> d, n |-> n, u |-> u], "RuntimeError")
+    /\ UNCHANGED <<mem, kids, pg, reg, fnode, flink, fpg, held, mode, Aux>>
+
 RemoveFromGroup(p, d) ==                           \* PropertyGroup.remove_properties
     /\ Do("RemoveFromGroup") /\ Writable /\ p \in PS /\ pg[p].owner \in Att /\ d \in pg[p].props
     /\ pg' = Scrub(pg, {d}) /\ fpg' = Scrub(fpg, {d})    \* only groups of this owner contain d
@@ -571,6 +581,7 @@ Next ==
     \/ \E m \in {"r+", "r"}, exc \in BOOLEAN : Helper(m, exc)
     \/ \E o \in OS, d \in DS, n \in Names : AddToGroup(o, d, n)
     \/ \E p \in PS, d \in DS : RemoveFromGroup(p, d)
+    \/ \E o \in OS, d \in DS, n \in Names, u \in PS \cup ES : PGWithUid(o, d, n, u)
     \/ \E p \in PS : RemovePG(p)
     \/ \E o \in OS, ds \in SUBSET DS : ScrubData(o, ds)
     \/ \E p \in Cont, n \in Names : CreateDeferred(p, n)
